@@ -49,6 +49,10 @@ def explore(part, cfg, k, depth):
     root = T.new_tracker(cfg)
     # node: (history, tracker, ident: animal->track name, last: animal->frame)
     frontier = [([], root, {}, {})]
+    T.canon(root, with_frames=True, history=[])
+    if not T.INTERNALS_OK["canon"]:
+        depth = min(depth, 3 if k == 3 else 5)
+        part.add("fallback_tree_search_depth_capped")
     nmerge = 0
     for d in range(depth):
         nxt = {}
@@ -93,7 +97,7 @@ def explore(part, cfg, k, depth):
                 l2 = dict(last)
                 for a, _ in ev:
                     l2[a] = d
-                key = (T.canon(t2, with_frames=True), tuple(sorted(id2.items())), tuple(sorted(l2.items())))
+                key = (T.canon(t2, with_frames=True, history=h2), tuple(sorted(id2.items())), tuple(sorted(l2.items())))
                 if key in nxt:
                     nmerge += 1
                     if nmerge % 13 == 0:
@@ -101,7 +105,7 @@ def explore(part, cfg, k, depth):
                         for i, e in enumerate(h2):
                             T.step(fresh, e, frame_idx=i, drift=True)
                         part.add("replay_crosschecks")
-                        if T.canon(fresh, with_frames=True) != key[0]:
+                        if T.canon(fresh, with_frames=True, history=h2) != key[0]:
                             part.violation(
                                 {"harness": "replay", "cfg": cfg, "history": h2},
                                 f"HARNESS: state via clone chain differs from replay on a fresh tracker for {h2}",
